@@ -105,6 +105,9 @@ void CommonLoop::runThisAfterLoop()
     if (sp_run_read_event_ != nullptr) {
         CHECK_DELETE_RESET_OBJ(sp_run_read_event_);
         CHECK_CLOSE_RESET_FD(run_event_fd_);
+        //! the wake-up token died with the eventfd: forget it, otherwise the next
+        //! runLoop() believes a request is still pending and never writes a new one
+        has_commit_run_req_ = false;
     }
 }
 
